@@ -173,7 +173,31 @@ public:
       variant<append_error_types<Variant>::template apply>::template apply,
       tuple<tag_t<set_error>, single_type_t>::template apply>;
 
-  static constexpr bool sends_done = sender_traits<Source>::sends_done;
+private:
+  // The materialized set_done signals of Source, as a list with one element
+  // per value-overload that starts with tag_t<set_done>.
+  using materialized_done_signals = sender_value_types_t<
+      Source,
+      variant<type_list>::template apply,
+      tuple<tag_t<set_done>, type_list>::template apply>;
+
+  // Whether Source may produce the value (set_done). materialize() always
+  // lists that overload but only produces it if its own source sends done,
+  // which it reports as 'materializes_done'.
+  template <typename S, typename = void>
+  struct may_produce_done_value
+    : std::bool_constant<
+          !std::is_same_v<materialized_done_signals, type_list<>>> {};
+  template <typename S>
+  struct may_produce_done_value<S, std::void_t<decltype(S::materializes_done)>>
+    : std::bool_constant<S::materializes_done> {};
+
+public:
+  // dematerialize() completes with set_done whenever Source produces the
+  // value (set_done), even if Source itself never completes with done (which
+  // is always the case for materialize()).
+  static constexpr bool sends_done = sender_traits<Source>::sends_done ||
+      may_produce_done_value<Source>::value;
 
   static constexpr blocking_kind blocking = sender_traits<Source>::blocking;
 
